@@ -152,6 +152,30 @@ def check_clamp(model, rep, flag):
         if k not in seen:
             seen.add(k)
             rep.decide(ok, 'C13.clamp', 'Solver.run:locked-instant', why, loc=f'{mod}:{line}', detail=f'context {name}')
+    # "the duty cycle in force": the speed of an instant is the outcome of the step driven with the duty cycle decided at the previous
+    # instant, so the lock decision must read the duty cycle BEFORE the control of the instant replaces it
+    pure = SolverIR.state_deciders(model)
+    n_dec = 0
+    bad = None
+    for name, rp, events in ins:
+        tags = [classify(rm, ev) for ev in events]
+        dec = [i for i, (ev, t) in enumerate(zip(events, tags))
+               if any(x.startswith('selfcall:') and x.split(':', 1)[1] in pure for x in t) and any(a.attr == 'pwm' for a in ev.reads)]
+        ctl = [i for i, ev in enumerate(events) if any(a.attr == 'pwm' for a in ev.writes)]
+        if not dec:
+            continue
+        n_dec += 1
+        early = [c for c in ctl if c < dec[0]]
+        if early and bad is None:
+            bad = (name, events[early[0]].lineno, events[dec[0]].lineno)
+    if n_dec:
+        rep.decide(bad is None, 'C13.clamp', 'Solver.run:decision-before-control',
+                   f'in context {bad[0] if bad else ""} the duty cycle is rewritten (line {bad[1] if bad else ""}) before the lock decision (line '
+                   f'{bad[2] if bad else ""}) reads it: the recorded speed was produced under the previous duty cycle, so a sign change of the '
+                   f'control at that instant hides a back-driven speed from the decision', loc=f'{mod}:{bad[1] if bad else rm.member.node.lineno}',
+                   detail=f'{n_dec} instant contexts with a lock decision')
+    else:
+        rep.cannot('C13.clamp', 'Solver.run:decision-before-control', 'no instant context with a lock decision reading the duty cycle')
     rep.decide(n_locked > 0, 'C13.clamp', 'Solver.run:locked-contexts', 'no instant context in which the powertrain is locked was found')
     rep.analysed['locked_instant_contexts'] = n_locked
 
